@@ -170,6 +170,17 @@ fn explore(ctx: &Ctx) -> Outcome {
             total.absorb(t);
         }
     }
+    // large archives (tables and text beyond 64 KiB)
+    for c in binfam::big_cases() {
+        let mut t = Tally::new();
+        t.cases += 1;
+        t.nontrivial += 1;
+        if let Some((sig, summary)) = judge(&c, &mut t, 2, 2, 1) {
+            t.violate(format!("big:{}", sig), summary, json!({"big": format!("{:?}/{} bytes", c.endian, c.size())}));
+        }
+        total.absorb(t);
+    }
+    layers.push(json!({"family": "large archives (300 and 20 000 cells, strings/pointers/labels interleaved)", "archives": binfam::big_cases().len(), "completed": true}));
     // tie cases: many fresh instances each
     let ties = tie_cases();
     let t = ties
@@ -224,6 +235,18 @@ fn replay(ctx: &Ctx, case: &Value) -> Vec<Violation> {
             Ok(Ok(again)) if again == bytes => vec![],
             _ => vec![Violation { sig: format!("fixture-not-byte-stable:{}", name), summary: "fixture".into(), case: case.clone() }],
         };
+    }
+    if let Some(tag) = case["big"].as_str() {
+        let mut out = Vec::new();
+        for c in binfam::big_cases() {
+            if format!("{:?}/{} bytes", c.endian, c.size()) == tag {
+                let mut t = Tally::new();
+                if let Some((sig, summary)) = judge(&c, &mut t, 2, 2, 1) {
+                    out.push(Violation { sig: format!("big:{}", sig), summary, case: case.clone() });
+                }
+            }
+        }
+        return out;
     }
     let c = binfam::content_from_json(case);
     let (max_calls, _, _) = params(ctx.tier);
